@@ -71,6 +71,7 @@ type cluster struct {
 	key    string
 	ssids  []message.Ssid
 	byLuid map[uint64]*client
+	base   uint64 // connection ids are base+1, base+2, ...: the model's connection id is the offset
 	gossips []*simGossip
 }
 
@@ -162,7 +163,7 @@ func mkKey(lic license.License, target string, perms uint8) string {
 	return s
 }
 
-func newCluster(n int, dir string, clientsPer []int) *cluster {
+func newCluster(n int, dir string, clientsPer []int, sameIDs bool) *cluster {
 	lic, _ := license.Parse(licText)
 	c := &cluster{links: map[[2]int]*mesh.VerifSender{}, byLuid: map[uint64]*client{}}
 	c.key = mkKey(lic, "#/", security.AllowRead|security.AllowWrite)
@@ -199,15 +200,21 @@ func newCluster(n int, dir string, clientsPer []int) *cluster {
 		c.gossips = append(c.gossips, g)
 		c.nodes[i].svc.VerifSwarm().VerifSetGossip(g)
 	}
-	idx := 1
+	c.base = security.VerifNextID()
 	for i, k := range clientsPer {
-		for j := 0; j < k; j++ {
-			cl := c.newClient(i, idx)
-			c.nodes[i].clients = append(c.nodes[i].clients, cl)
-			c.byLuid[cl.luid] = cl
-			idx++
-			c.drainAll() // one connection event at a time (see F8b)
+		if sameIDs {
+			// brokers started within the same second count their connections from the same number
+			security.VerifSetNextID(c.base)
 		}
+		for j := 0; j < k; j++ {
+			cl := c.newClient(i, 0)
+			cl.idx = int(cl.luid - c.base)
+			c.nodes[i].clients = append(c.nodes[i].clients, cl)
+			c.drainAll()
+		}
+	}
+	security.VerifSetNextID(c.base + 500)
+	for i := range clientsPer {
 		c.nodes[i].pub = c.newClient(i, 900+i)
 		c.drainAll()
 	}
@@ -301,8 +308,8 @@ func (c *cluster) obsTerm() string {
 				ssid = append(ssid, be32(kb[o:o+4]))
 			}
 			ci := uint64(999)
-			if cl, ok := c.byLuid[luid]; ok {
-				ci = uint64(cl.idx)
+			if luid > c.base && luid <= c.base+400 {
+				ci = luid - c.base
 			}
 			dump = append(dump, fmt.Sprintf("(%d, %s, %s)", modelKey(peer, ci, uint64(c.ssidIdx(ssid))), vlib.Z(v.AddTime()), vlib.Z(v.DelTime())))
 		}
@@ -338,7 +345,7 @@ type sev struct {
 	a, b int    // brokers (0-based); for toggle: a = client index (1-based, cluster-wide), b = channel
 }
 
-func history(n int, steps int, faults bool, dir string, clientsPer []int, script []sev) (string, map[string]interface{}) {
+func history(n int, steps int, faults bool, dir string, clientsPer []int, script []sev, sameIDs bool) (string, map[string]interface{}) {
 	r := cfg.Rng
 	if clientsPer == nil {
 		clientsPer = make([]int, n)
@@ -348,7 +355,7 @@ func history(n int, steps int, faults bool, dir string, clientsPer []int, script
 	}
 	atomic.StoreInt64(&clock, 1000)
 	t0 := time.Now()
-	c := newCluster(n, dir, clientsPer)
+	c := newCluster(n, dir, clientsPer, sameIDs)
 	if os.Getenv("VERIF_TIMING") != "" {
 		fmt.Fprintln(os.Stderr, "newCluster", time.Since(t0))
 		defer func() { fmt.Fprintln(os.Stderr, "history total", time.Since(t0)) }()
@@ -415,8 +422,11 @@ func history(n int, steps int, faults bool, dir string, clientsPer []int, script
 		case "gossip":
 			gossip(e.a, e.b)
 		case "online":
+			c.nodes[e.a].svc.VerifSwarm().VerifPeerSeen(c.nodes[e.b].name)
+			c.nodes[e.b].svc.VerifSwarm().VerifPeerSeen(c.nodes[e.a].name)
 			c.links[[2]int{e.a, e.b}].Send(c.nodes[e.a].svc.VerifSwarm().Gossip())
 			c.links[[2]int{e.b, e.a}].Send(c.nodes[e.b].svc.VerifSwarm().Gossip())
+			offline[[2]int{e.a, e.b}] = false
 			record(vlib.App("EOnline", vlib.N(uint64(e.a+1)), vlib.N(uint64(e.b+1))), "online")
 		case "offline":
 			t += 10
@@ -424,6 +434,7 @@ func history(n int, steps int, faults bool, dir string, clientsPer []int, script
 			c.nodes[e.a].svc.VerifSwarm().VerifOffline(c.nodes[e.b].name)
 			c.links[[2]int{e.a, e.b}] = mesh.NewVerifSender()
 			c.links[[2]int{e.b, e.a}] = mesh.NewVerifSender()
+			offline[[2]int{e.a, e.b}] = true
 			record(vlib.App("EOffline", vlib.N(uint64(e.a+1)), vlib.N(uint64(e.b+1)), vlib.Z(t)), "offline")
 		}
 	}
@@ -445,6 +456,8 @@ func history(n int, steps int, faults bool, dir string, clientsPer []int, script
 			b, p := pick2()
 			if offline[[2]int{b, p}] {
 				// the connection comes back: both sides queue their full state
+				c.nodes[b].svc.VerifSwarm().VerifPeerSeen(c.nodes[p].name)
+				c.nodes[p].svc.VerifSwarm().VerifPeerSeen(c.nodes[b].name)
 				c.links[[2]int{b, p}].Send(c.nodes[b].svc.VerifSwarm().Gossip())
 				c.links[[2]int{p, b}].Send(c.nodes[p].svc.VerifSwarm().Gossip())
 				offline[[2]int{b, p}] = false
@@ -475,6 +488,17 @@ func history(n int, steps int, faults bool, dir string, clientsPer []int, script
 		}
 	}
 	schedLen := len(evs)
+	// whoever was declared unreachable is back before the cluster is left alone
+	for pr, off := range offline {
+		if off {
+			b, p := pr[0], pr[1]
+			c.nodes[b].svc.VerifSwarm().VerifPeerSeen(c.nodes[p].name)
+			c.nodes[p].svc.VerifSwarm().VerifPeerSeen(c.nodes[b].name)
+			c.links[[2]int{b, p}].Send(c.nodes[b].svc.VerifSwarm().Gossip())
+			c.links[[2]int{p, b}].Send(c.nodes[p].svc.VerifSwarm().Gossip())
+			record(vlib.App("EOnline", vlib.N(uint64(b+1)), vlib.N(uint64(p+1))), "online")
+		}
+	}
 	drain()
 	for round := 0; round < 2; round++ {
 		for a := 0; a < n; a++ {
@@ -547,23 +571,28 @@ func main() {
 	for i := 0; i < nCases; i++ {
 		n := 2 + r.Intn(2)
 		faults := i%3 == 2
-		t, h := history(n, 12+r.Intn(25), faults, filepath.Join(cfg.Out, fmt.Sprintf("swarm%d", i)), nil, nil)
+		t, h := history(n, 12+r.Intn(25), faults, filepath.Join(cfg.Out, fmt.Sprintf("swarm%d", i)), nil, nil, i%4 == 3)
 		class := "clean-schedule"
 		if faults {
 			class = "schedule-with-full-state-and-offline"
 		}
 		sh.Add(t, h, fmt.Sprintf("%s/%d-brokers", class, n), true)
 	}
-	// the witness of the known finding (coq/Findings/C05.v) and the witness of the repaired F4 / F5
-	// (an unsubscribe and re-subscribe coalesced on the link), replayed on the real brokers
+	// the former witnesses of F4 / F5, F7 and F7c (coq/Findings/C05.v; all repaired), replayed on the
+	// real brokers as regression scenarios
 	{
 		t, h := history(2, 0, true, filepath.Join(cfg.Out, "swarmF4"), []int{2, 1},
-			[]sev{{"toggle", 3, 2}, {"deliver", 1, 0}, {"toggle", 3, 2}, {"toggle", 3, 2}, {"deliver", 1, 0}, {"toggle", 3, 2}, {"deliver", 1, 0}})
+			[]sev{{"toggle", 3, 2}, {"deliver", 1, 0}, {"toggle", 3, 2}, {"toggle", 3, 2}, {"deliver", 1, 0}, {"toggle", 3, 2}, {"deliver", 1, 0}}, false)
 		sh.Add(t, h, "witness/F5-recount-repaired", true)
 		t, h = history(3, 0, true, filepath.Join(cfg.Out, "swarmF7"), []int{1, 1, 2},
 			[]sev{{"toggle", 4, 1}, {"deliver", 2, 0}, {"deliver", 2, 1}, {"toggle", 2, 1}, {"deliver", 1, 2}, {"deliver", 1, 0},
-				{"offline", 2, 1}, {"online", 2, 1}})
+				{"offline", 2, 1}, {"online", 2, 1}}, false)
 		sh.Add(t, h, "witness/F7-returning-peer", true)
+		// two brokers whose connection ids coincide (started within the same second), one client each on
+		// the same channel; broker 1 sees broker 2 go away and come back
+		t, h = history(2, 0, true, filepath.Join(cfg.Out, "swarmF7c"), []int{1, 1},
+			[]sev{{"toggle", 1, 0}, {"toggle", 2, 0}, {"deliver", 0, 1}, {"deliver", 1, 0}, {"offline", 0, 1}, {"online", 0, 1}}, true)
+		sh.Add(t, h, "witness/F7c-colliding-connection-ids", true)
 	}
 	sh.Finish("2-3 brokers with 1-2 subscribing clients each over channels a/b/ b/a/ c/ (the first two collide in the counters' hash code); schedules of 12-36 events: client subscribe / unsubscribe toggles, single-piece deliveries on random links (so queued payloads coalesce and arrive late), and in every third case periodic full-state gossip and peer offline / online; then quiescence (all links drained, two rounds of full-state exchange) and one publish per broker and channel; observed after every event: every broker's remote trie entries, replicated subscription entries, members and per-peer counters; non-trivial: all")
 }
